@@ -78,7 +78,7 @@ CHECKS = {
     "C12": dict(
         engine=E3 + " + " + E1, category="model_checking", design="§4 C12",
         technique="explicit-state BFS over write/overwrite/append/read histories on real HDF5 files with a reference file model (state = model content, asserted equal to the file in every state), plus exhaustive enumeration of batch-read selectors",
-        text="Breadth-first search to depth 3 (quick) / 8 (thorough: 583 states, 20 034 transitions) over 67 operations per state (12 tables x 4 write modes by name, 4 tables x 4 modes through an open h5py.File, read by name / by file object, batch read) on a real file per state; every "
+        text="Breadth-first search to depth 3 (quick) / 8 (thorough: 583 states, 20 034 transitions) over 71 operations per state (13 tables x 4 write modes by name, 4 tables x 4 modes through an open h5py.File, read by name / by file object, batch read) on a real file per state; every "
              "transition checks accept/refuse verdict, byte-identity of the file after a refusal and the full content after acceptance. Batch reads: "
              "every (start, stop, step), every index array of length<=3, scripted random reads x column subsets x unit requests; all columns in reversed / rotated order. The same write/read operations also go through an open h5py.File, append+overwrite is a fourth write mode, and a second sample table in a group of the same file must survive appends.",
         note="None-vs-value t_ref appends are 'either'. Trusts h5py/PyTables/astropy I/O.",
